@@ -13,6 +13,7 @@ import (
 	"fmt"
 	"os"
 	"path/filepath"
+	"runtime"
 	"strconv"
 	"sync"
 	"testing"
@@ -259,6 +260,10 @@ func RunSharded(t *testing.T, cases []Case, run func(t *testing.T, c Case, rec *
 				func() {
 					defer func() {
 						if r := recover(); r != nil {
+							if os.Getenv("VERIF_NORECOVER") != "" { // debugging aid: dump every goroutine
+								buf := make([]byte, 1<<22)
+								os.Stderr.Write(buf[:runtime.Stack(buf, true)])
+							}
 							// a panic of the code under test is an observation, not a harness failure
 							rec.Add(Op{"ev": "Panic", "msg": fmt.Sprint(r)})
 						}
